@@ -66,6 +66,34 @@ theorem setXy_spec (t : Tuple R) (a b : R) (h : 1 < t.dim) :
 
 end tuple
 
+/-- the loop of `update` after `k` rounds -/
+theorem update_loop (value vals : List R) (k : Nat) (hk1 : k ≤ value.length) (hk2 : k ≤ vals.length) :
+    (List.range k).foldl (Tuple.updateStep value) vals = value.take k ++ vals.drop k := by
+  induction k with
+  | zero => simp
+  | succ k ih =>
+    have h1 : k < value.length := by omega
+    have h2 : k < vals.length := by omega
+    rw [List.range_succ, List.foldl_append, ih (by omega) (by omega)]
+    simp only [List.foldl_cons, List.foldl_nil, Tuple.updateStep, List.getElem?_eq_getElem h1]
+    have hlen : (value.take k).length = k := by rw [List.length_take]; omega
+    rw [List.set_append_right _ _ (by rw [hlen]), hlen, Nat.sub_self,
+      List.drop_eq_getElem_cons h2, List.set_cons_zero]
+    rw [List.take_succ_eq_append_getElem h1, List.append_assoc]
+    rfl
+
+/-- **`update` replaces the first `min(len, dim)` elements by those of the slice and leaves the
+others, and the dimension, alone — also for a slice longer than the tuple** -/
+theorem update_spec (t : Tuple R) (value : List R) :
+    (t.update value).vals = value.take (min value.length t.dim) ++ t.vals.drop (min value.length t.dim) ∧
+    (t.update value).dim = t.dim := by
+  have h := update_loop value t.vals (min value.length t.dim) (Nat.min_le_left _ _) (Nat.min_le_right _ _)
+  refine ⟨h, ?_⟩
+  simp only [Tuple.dim, Tuple.update] at h ⊢
+  rw [h]
+  simp only [List.length_append, List.length_take, List.length_drop]
+  omega
+
 /-! ### containers: what is written is what is read -/
 
 section containers
